@@ -191,7 +191,13 @@ func visitInstr(fr *frame, instr ssa.Instruction) continuation {
 		// no-op
 
 	case *ssa.UnOp:
-		fr.env[instr] = unop(fr, instr, fr.get(instr.X))
+		x := fr.get(instr.X)
+		if race != nil && race.on && instr.Op == token.MUL {
+			if p, ok := x.(*value); ok && p != nil && EX.RaceCheck {
+				race.read(fr, p, instr.Pos())
+			}
+		}
+		fr.env[instr] = unop(fr, instr, x)
 
 	case *ssa.BinOp:
 		fr.env[instr] = binop(instr.Op, instr.X.Type(), fr.get(instr.X), fr.get(instr.Y))
@@ -249,7 +255,11 @@ func visitInstr(fr *frame, instr ssa.Instruction) continuation {
 		chanSend(fr, fr.get(instr.Chan).(*symchan), fr.get(instr.X))
 
 	case *ssa.Store:
-		store(mustDeref(instr.Addr.Type()), fr.get(instr.Addr).(*value), fr.get(instr.Val))
+		addr := fr.get(instr.Addr).(*value)
+		if race != nil && race.on && addr != nil && EX.RaceCheck {
+			race.write(fr, addr, instr.Pos())
+		}
+		store(mustDeref(instr.Addr.Type()), addr, fr.get(instr.Val))
 
 	case *ssa.If:
 		succ := 1
@@ -265,7 +275,9 @@ func visitInstr(fr *frame, instr ssa.Instruction) continuation {
 			if EX.Branch(s.t) {
 				succ = 0
 			}
-		} else if c.(bool) {
+		} else if b, isBool := c.(bool); !isBool {
+			panic(pathAbort{"unsupported", fmt.Sprintf("branch on a non-boolean value %T (result of an unmodelled call?) in %s at %s", c, fr.fn, fr.i.prog.Fset.Position(instr.Cond.Pos()))})
+		} else if b {
 			succ = 0
 		}
 		fr.prevBlock, fr.block = fr.block, fr.block.Succs[succ]
@@ -327,7 +339,11 @@ func visitInstr(fr *frame, instr ssa.Instruction) continuation {
 		fr.env[instr] = makeMap(instr.Type().Underlying().(*types.Map).Key(), reserve)
 
 	case *ssa.Range:
-		fr.env[instr] = rangeIter(fr.get(instr.X), instr.X.Type())
+		x := fr.get(instr.X)
+		if m, ok := x.(*omap); ok && m != nil && race != nil && race.on && EX.RaceCheck {
+			race.read(fr, m, instr.Pos())
+		}
+		fr.env[instr] = rangeIter(x, instr.X.Type())
 
 	case *ssa.Next:
 		fr.env[instr] = fr.get(instr.Iter).(iter).next()
@@ -376,7 +392,11 @@ func visitInstr(fr *frame, instr ssa.Instruction) continuation {
 		}
 
 	case *ssa.Lookup:
-		fr.env[instr] = lookup(instr, fr.get(instr.X), fr.get(instr.Index))
+		x := fr.get(instr.X)
+		if m, ok := x.(*omap); ok && m != nil && race != nil && race.on && EX.RaceCheck {
+			race.read(fr, m, instr.Pos())
+		}
+		fr.env[instr] = lookup(instr, x, fr.get(instr.Index))
 
 	case *ssa.MapUpdate:
 		m := fr.get(instr.Map)
@@ -384,6 +404,9 @@ func visitInstr(fr *frame, instr ssa.Instruction) continuation {
 		v := fr.get(instr.Value)
 		switch m := m.(type) {
 		case *omap:
+			if m != nil && race != nil && race.on && EX.RaceCheck {
+				race.write(fr, m, instr.Pos())
+			}
 			m.insert(key, v)
 		default:
 			panic(fmt.Sprintf("illegal map type: %T", m))
@@ -435,7 +458,11 @@ func visitInstrInit(fr *frame, instr ssa.Instruction) (k continuation) {
 			return
 		}
 		if v, ok := instr.(ssa.Value); ok {
-			fr.env[v] = opaque{"init"}
+			if b, isBasic := v.Type().Underlying().(*types.Basic); isBasic && b.Kind() != types.UnsafePointer && b.Info()&types.IsUntyped == 0 {
+				fr.env[v] = zero(b) // same policy as opaqueResult: scalars of unmodelled init code are zero
+			} else {
+				fr.env[v] = opaque{"init"}
+			}
 		}
 		k = kNext
 	}()
